@@ -192,6 +192,7 @@ class Gen:
     def __init__(self, S, rng):
         self.S, self.rng = S, rng
         self.objs = []            # objects 1..n of the case
+        self.skip_hands = set()   # hand-written types this generator leaves out (treated as unmodelled)
 
     def obj(self, v):
         self.objs.append(v)
@@ -213,7 +214,7 @@ class Gen:
             return all(self.modelled(f["ty"], seen + (t[1],)) or self.optional(f) for f in self.S.structs[t[1]]["fields"] if not f["flags"] & 5)
         if c in (31, 32):
             return True
-        return c == 33 and self.S.hands[t[1]] in MODELLED_HAND
+        return c == 33 and self.S.hands[t[1]] in MODELLED_HAND and self.S.hands[t[1]] not in self.skip_hands
 
     @staticmethod
     def optional(f):
@@ -409,6 +410,8 @@ class Gen:
             return r.choice(self.S.ienums[t[1]]["variants"])[1]
         if c == 33:
             h = self.S.hands[t[1]]
+            if h in self.skip_hands:
+                return None
             if h == "Date":
                 return self.date()
             if h == "Rectangle":
